@@ -73,6 +73,12 @@ func WorkerMain(args []string) int {
 	}
 	c.ForwardAdd = func(key string, n int) { emit(wireMsg{T: "add", Key: key, N: n}) }
 	c.ForwardHarness = func(msg string) { emit(wireMsg{T: "harness", What: msg}) }
+	c.ForwardCap = func(what string) { emit(wireMsg{T: "cap", What: what}) }
+	if v := os.Getenv("VERIF_DEADLINE_UNIX"); v != "" {
+		if n, err := strconv.ParseInt(v, 10, 64); err == nil {
+			c.Deadline = time.Unix(n, 0)
+		}
+	}
 	total := s.N()
 	for i := 0; i < total; i++ {
 		if only >= 0 && i != only {
@@ -109,7 +115,7 @@ func (c *Ctx) RunSharded(name string) {
 	runWorkerFromCase := func(k, n, only, from int) (lastCase int, done bool, tail string) {
 		args := []string{"worker", "shard", c.Prop, name, strconv.Itoa(k), strconv.Itoa(n), strconv.Itoa(only), strconv.Itoa(from)}
 		cmd := exec.Command(self, args...)
-		cmd.Env = append(os.Environ(), "VERIF_TIER_INTERNAL="+c.Tier)
+		cmd.Env = append(os.Environ(), "VERIF_TIER_INTERNAL="+c.Tier, fmt.Sprintf("VERIF_DEADLINE_UNIX=%d", c.Deadline.Unix()))
 		stdout, _ := cmd.StdoutPipe()
 		var errBuf strings.Builder
 		cmd.Stderr = &errBuf
@@ -166,6 +172,8 @@ func (c *Ctx) RunSharded(name string) {
 				c.Add(m.Key, m.N)
 			case "harness":
 				c.HarnessError(m.What)
+			case "cap":
+				c.Cap(m.What)
 			case "done":
 				done = true
 			}
